@@ -29,6 +29,7 @@ theorem pending_commit {s s3 : State} (h : executeCommitDpos s = .ok s3) (q : Re
 theorem contains_append_single (l : List Nat) (a b : Nat) (h : b ≠ a) : (l ++ [a]).contains b = l.contains b := by
   simp [h]
 
+set_option maxHeartbeats 1600000 in
 /-- Handlers that finish by themselves create at most the request named by `creates`. -/
 theorem pending_done (H : Bytes → Bytes) (s : State) (op : Op) (o : Out) (q : Req)
     (h : plan H s op = .ok (.done o)) (hc : creates s op ≠ some q) (hp : pending s q = false) : pending o.st q = false := by
